@@ -163,6 +163,21 @@ func synthStringKind(g *RNG, attr string) string {
 	return pick(g, []string{"utf8", "utf8", "utf8", "printable", "printable", "bmp", "teletex", "teletex-latin1", "universal", "ia5"})
 }
 
+// synthForceManyNames > 0 makes every synthetic certificate a many-names one with that many names.
+var synthForceManyNames int
+
+// synthForceCRLEntries > 0 fixes the number of entries of large synthetic CRLs.
+var synthForceCRLEntries int
+
+// synthForceBigCRL makes every synthetic CRL a large one (set around a draw).
+var synthForceBigCRL bool
+
+func synthBigCRL(g *RNG, idx []string) *ObjSpec {
+	synthForceBigCRL = true
+	defer func() { synthForceBigCRL = false }()
+	return synthCRL(g, idx)
+}
+
 // synthForceWeakKey makes every synthetic certificate carry a Fermat-weak RSA key (set around a
 // draw by generators that aim at the Fermat lint's option).
 var synthForceWeakKey bool
@@ -175,8 +190,14 @@ func synthWeakKeyCert(g *RNG, idx []string) *ObjSpec {
 
 // weakSPKI is an RSA SubjectPublicKeyInfo whose modulus comes from the pool of Fermat-weak
 // moduli: an object on which the round count configured for the Fermat lint decides the verdict.
+// synthForceWeakIdx >= 0 fixes which modulus of the pool weak keys get (several distinct certificates for one key).
+var synthForceWeakIdx = -1
+
 func weakSPKI(g *RNG) []byte {
 	e := fermatPool[g.Intn(len(fermatPool))]
+	if synthForceWeakIdx >= 0 {
+		e = fermatPool[synthForceWeakIdx%len(fermatPool)]
+	}
 	n, _ := new(big.Int).SetString(e.N, 16)
 	exp := pick(g, []int64{65537, 65537, 65537, 3, 17})
 	key := dseq(dint(n), dint(big.NewInt(exp)))
@@ -322,7 +343,10 @@ func synthCert(g *RNG, idx []string) *ObjSpec {
 	}
 	for tries := 0; tries < 8; tries++ {
 		// ---- archetype: independent random features rarely add up to a coherent certificate of some type
-		arch := pick(g, []string{"random", "random", "random", "random", "tls", "tls", "ev-onion", "smime", "codesigning", "ca", "tls-removed-tld"})
+		arch := pick(g, []string{"random", "random", "random", "random", "tls", "tls", "ev-onion", "smime", "codesigning", "ca", "tls-removed-tld", "many-names"})
+		if synthForceManyNames > 0 {
+			arch = "many-names"
+		}
 		var forcedEKU, forcedPol []string
 		// ---- names
 		nh := g.weighted([]int{1, 4, 3, 3, 2, 2, 1, 1, 1, 1})
@@ -330,7 +354,22 @@ func synthCert(g *RNG, idx []string) *ObjSpec {
 		for i := 0; i < nh; i++ {
 			hosts = append(hosts, pick(g, synthHosts))
 		}
+		var uriHosts []string
 		switch arch {
+		case "many-names":
+			// scale: hundreds to thousands of distinct names (dNSName and URI entries), as multi-tenant
+			// front-end certificates have - whatever helpers keep per name is exercised at volume
+			forcedEKU = []string{"1.3.6.1.5.5.7.3.1"}
+			nn := pick(g, []int{300, 300, 300, 1500, 1500, 5000})
+			if synthForceManyNames > 0 {
+				nn = synthForceManyNames
+			}
+			tag := fmt.Sprintf("%x", g.U64()&0xffffff)
+			hosts = hosts[:0]
+			for i := 0; i < nn; i++ {
+				hosts = append(hosts, fmt.Sprintf("h%d-%s.example.com", i, tag))
+				uriHosts = append(uriHosts, fmt.Sprintf("u%d-%s.example.org", i, tag))
+			}
 		case "tls-removed-tld":
 			// a server certificate issued while its top-level domain was delegated; the domain has been removed
 			// since. Names and access locations share the domain (rules asking at notBefore and rules asking
@@ -419,7 +458,15 @@ func synthCert(g *RNG, idx []string) *ObjSpec {
 			inner := gn[len(gn)-len(stripTL(gn)):]
 			add(dext("2.5.29.17", g.Chance(0.1), dseq(ctxPrim(1, []byte(pick(g, []string{"a@example.com", "B.C@example.org"}))), inner)))
 		} else if len(hosts) > 0 || g.Chance(0.3) {
-			add(dext("2.5.29.17", g.Chance(0.1), synthGeneralNames(g, hosts)))
+			gn := synthGeneralNames(g, hosts)
+			if len(uriHosts) > 0 {
+				inner := [][]byte{stripTL(gn)}
+				for _, u := range uriHosts {
+					inner = append(inner, ctxPrim(6, []byte("https://"+u+"/")))
+				}
+				gn = dseq(inner...)
+			}
+			add(dext("2.5.29.17", g.Chance(0.1), gn))
 		}
 		if len(forcedEKU) > 0 {
 			ekus := [][]byte{doid(forcedEKU[0])}
@@ -603,11 +650,36 @@ func synthCRL(g *RNG, idx []string) *ObjSpec {
 			parts = append(parts, dtime(this.Add(time.Duration(pick(g, []int{1, 7, 10, 30, 200, 366, 400}))*24*time.Hour), g.Chance(0.05)))
 		}
 		nRev := g.weighted([]int{2, 3, 3, 2, 1})
+		// now and then a large list: thousands of entries with serial numbers 1..n (two such lists share
+		// most of their serials, as successive CRLs of one issuer do), with or without a repeated serial
+		bigList := g.Chance(0.05) || synthForceBigCRL
+		dupAt, dupOf := -1, 0
+		if bigList {
+			nRev = pick(g, []int{1200, 4500, 4500, 9000})
+			if synthForceCRLEntries > 0 {
+				nRev = synthForceCRLEntries
+			}
+			if g.Chance(0.5) {
+				dupAt = g.Range(nRev/2, nRev-1)
+				dupOf = 1 + g.Intn(dupAt)
+			}
+		}
 		var revs [][]byte
 		for i := 0; i < nRev; i++ {
 			serial := big.NewInt(int64(1 + g.Intn(1000)))
 			if g.Chance(0.2) && i > 0 {
 				serial = big.NewInt(1)
+			}
+			if bigList {
+				serial = big.NewInt(int64(i + 1))
+				if i == dupAt {
+					serial = big.NewInt(int64(dupOf))
+				}
+				if i >= 8 {
+					// plain entries after the first few: serial and date only
+					revs = append(revs, dseq(dint(serial), dtime(this.Add(-time.Duration(i%1000)*time.Hour), false)))
+					continue
+				}
 			}
 			ent := [][]byte{dint(serial), dtime(this.Add(-time.Duration(g.Intn(1000))*time.Hour), false)}
 			var eexts [][]byte
@@ -645,6 +717,9 @@ func synthCRL(g *RNG, idx []string) *ObjSpec {
 		}
 		der := dseq(dseq(parts...), d.sigAlg, d.sig)
 		if _, err := parseObj(KCRL, der); err == nil {
+			if bigList {
+				return &ObjSpec{ID: "synth-crlbig:" + sha(der)[:12], Kind: KCRL, DER: der}
+			}
 			return &ObjSpec{ID: "synth-crl:" + sha(der)[:12], Kind: KCRL, DER: der}
 		}
 	}
